@@ -931,11 +931,13 @@ def run(ctx):
     if quick:
         plan += [('c11q', 4, 1, 1, None, None, base_cfgs, 2200),
                  ('c11m', 2, 1, 0, None, None, ['plain', 'all'], 150),
+                 ('c11p', 3, 0, 2, None, None, ['plain', 'all'], 400),
                  ('c11s', 9, 2, 2, 40, 10, base_cfgs + ['jolrr'], 350),
                  ('c11n', 80, 2, 1, 1, 81, ['plain', 'all'], 70)]
     else:
         plan += [('c11q', 5, 1, 1, None, None, base_cfgs + ['jolrr'], 3000),
                  ('c11m', 3, 1, 1, None, None, ['plain', 'all'], 1200),
+                 ('c11p', 4, 1, 2, None, None, base_cfgs, 2000),
                  ('c11f', 3, 0, 1, None, None, ['plain', 'all'], 200),
                  ('c11t', 12, 2, 2, 300, 13, base_cfgs + ['jolrr'], 1200),
                  ('c11n', 90, 2, 1, 5, 91, ['plain', 'udf', 'all'], 400)]
